@@ -110,6 +110,8 @@ def gen_cnr(tape, tier, max_chroms=6, size_classes=None, label="cnr", force_mirr
         w = rng.uniform(0.05, 1.0, size=n)
         if not mirror_arms:
             w[rng.random(n) < 0.05] = 1e-4
+            # weights sitting exactly on the cut-offs the check passes as min_weight
+            w[rng.random(n) < 0.04] = 0.4
         w[rng.random(n) < zero_w_rate] = 0.0
         if not mirror_arms and tape.chance(1, 12, label + ".tiny_weights"):
             # a chromosome whose weights are all minute (but positive): sums far below any
